@@ -28,7 +28,7 @@ def proj_chart(m) -> dict:
             "bpms": [{"t": _t(r.offset), "bl": int(round(60000.0 / float(r.bpm) * T))} for r in m.bpms.df.itertuples()],
             "title": _s(m.title), "artist": _s(m.artist), "version": _s(m.version),
             "exbpms": [{"id": _s(k).upper(), "bpm1000": int(round(float(v) * 1000))} for k, v in m.exbpms.items()],
-            "misc": [[_s(k).upper(), _s(v)] for k, v in m.misc.items()]}
+            "misc": [[_s(k).upper(), _s(v).strip()] for k, v in m.misc.items()]}      # surrounding blanks of a value are not content
 
 
 def layout_of(name):
@@ -42,10 +42,15 @@ def exec_bms(scn):
     import tempfile
     r = rng("c04-" + scn["id"])
     v = scn["variant"]
-    lines = concretize(scn["file"], r, merge=(v % 2 == 1), shuffle=(v % 3 != 0), lower=False, late_headers=(v % 7 == 5))
+    f = scn["file"]
+    if scn.get("ext"):
+        f = dict(f, sigs=scn["sigs"])
+    lines = concretize(f, r, merge=(v % 2 == 1), shuffle=(v % 3 != 0), lower=False, late_headers=(v % 7 == 5))
     ftok = lex(lines)
     rec = {"id": scn["id"] + "/read", "op": "read", "cls": f"bms.read.{scn['layout']}.{'ordered' if v % 3 == 0 else 'shuffled'}",
            "layout": scn["layout"], "exc": "", "file": ftok, "chart": {}, "slack": 0}
+    if scn.get("ext"):
+        rec["ext"], rec["cls"], rec["slack"] = True, "ext.bms.read.timesig", 12
     try:
         if v % 4 == 3:
             fd, path = tempfile.mkstemp(suffix=".bms")
@@ -77,18 +82,18 @@ def bundled_scenarios(tier):
         with open(f, "rb") as fh:
             text = fh.read().decode("shift_jis", errors="replace")
         lines = [ln.strip() for ln in text.replace("\r\n", "\n").split("\n")]
-        if any(re.match(r"^#\d{3}02:", ln) for ln in lines):
-            continue
+        ext = any(re.match(r"^#\d{3}02:", ln) for ln in lines)     # channel 02: outside C04's domain -> extension record
         for K in ((6, 14) if tier == "quick" else (4, 8, 16, 32, 64)):
             keep = [ln for ln in lines if not re.match(r"^#\d{3}[0-9A-Za-z]{2}:", ln) or int(ln[1:4]) < K]
-            out.append({"id": f"b.{os.path.basename(f)}.{K}", "lines": keep, "layout": "BME", "slack": 2 * K + 2})
+            out.append({"id": f"b.{os.path.basename(f)}.{K}", "lines": keep, "layout": "BME", "slack": 2 * K + 2 + (12 if ext else 0),
+                        "ext": ext})
     return out
 
 
 def exec_bundled(scn):
     from reamber.bms.BMSMap import BMSMap
-    rec = {"id": scn["id"] + "/read", "op": "read", "cls": "bms.read.bundled", "layout": scn["layout"], "exc": "",
-           "file": lex(scn["lines"]), "chart": {}, "slack": scn["slack"]}
+    rec = {"id": scn["id"] + "/read", "op": "read", "cls": "bms.read.bundled" if not scn.get("ext") else "ext.bms.read.bundled.timesig",
+           "layout": scn["layout"], "exc": "", "file": lex(scn["lines"]), "chart": {}, "slack": scn["slack"], "ext": bool(scn.get("ext"))}
     try:
         rec["chart"] = proj_chart(BMSMap.read(scn["lines"], layout_of(scn["layout"])))
     except ProjectionError as e:
